@@ -1004,9 +1004,14 @@ func queryBlocksValidated(w *load.World, c *core.Collector) {
 		return
 	}
 	// tests of a payload pointer whose not-nil side calls Validate on that payload
-	f = homeOf(f, func(g *ssa.Function) bool { return len(queryBlockTests(g))+len(queryBlockTable(g)) >= 3 })
+	f = homeOf(f, func(g *ssa.Function) bool {
+		return len(queryBlockTests(g))+len(queryBlockTable(g))+len(queryBlockHelperCalls(g)) >= 3
+	})
 	tests := queryBlockTests(f)
 	for n, bs := range queryBlockTable(f) {
+		tests[n] = append(tests[n], bs...)
+	}
+	for n, bs := range queryBlockHelperCalls(f) {
 		tests[n] = append(tests[n], bs...)
 	}
 	var names []string
@@ -1046,6 +1051,83 @@ func queryBlocksValidated(w *load.World, c *core.Collector) {
 			c.Add("VALID", key, core.OK, w.Position(f.Pos()), "", props...)
 		}
 	}
+}
+
+// queryBlockHelperCalls: "if err := validateOptions(name, q.X); err != nil { return err }" — the
+// block is handed to a helper that validates what it is given when that is not nil (a nil test
+// of its parameter, Validate on the not-nil side only). The block of the call counts as the test.
+func queryBlockHelperCalls(f *ssa.Function) map[string][]*ssa.BasicBlock {
+	out := map[string][]*ssa.BasicBlock{}
+	validatesParam := func(h *ssa.Function, pi int) bool {
+		if h == nil || len(h.Blocks) == 0 || pi >= len(h.Params) || !ssax.InModule(h) {
+			return false
+		}
+		p := h.Params[pi]
+		for _, vb := range h.Blocks {
+			for _, in := range vb.Instrs {
+				call, ok := in.(*ssa.Call)
+				if !ok || len(call.Call.Args) == 0 {
+					continue
+				}
+				nm := ""
+				if call.Call.IsInvoke() {
+					nm = call.Call.Method.Name()
+				} else if g := call.Call.StaticCallee(); g != nil {
+					nm = g.Name()
+				}
+				if nm != "Validate" {
+					continue
+				}
+				recv := call.Call.Args[0]
+				if call.Call.IsInvoke() {
+					recv = call.Call.Value
+				}
+				for i := 0; i < 3; i++ {
+					switch x := recv.(type) {
+					case *ssa.MakeInterface:
+						recv = x.X
+						continue
+					case *ssa.ChangeInterface:
+						recv = x.X
+						continue
+					}
+					break
+				}
+				if derefOnce(recv) != ssa.Value(p) {
+					continue
+				}
+				nn, _ := ssax.NilTests(h, p)
+				for _, e := range nn {
+					if ssax.OnlyViaEdge(e.From, e.Succ, vb) {
+						return true
+					}
+				}
+			}
+		}
+		return false
+	}
+	for _, b := range f.Blocks {
+		for _, in := range b.Instrs {
+			call, ok := in.(*ssa.Call)
+			if !ok || call.Call.IsInvoke() {
+				continue
+			}
+			h := call.Call.StaticCallee()
+			if h == nil {
+				continue
+			}
+			for i, a := range call.Call.Args {
+				_, st, idx, ok := payloadLoad(a)
+				if !ok {
+					continue
+				}
+				if validatesParam(h, i) {
+					out[st.Field(idx).Name()] = append(out[st.Field(idx).Name()], b)
+				}
+			}
+		}
+	}
+	return out
 }
 
 func derefOnce(v ssa.Value) ssa.Value {
